@@ -126,6 +126,15 @@
 #define INSERT_VALUE_SQL "insert into item_value (container_id, name, row_num, " \
     "kind, quoted, val_text, val, val_digits, su_digits, scale) values (?, ?, ?, ?, ?, ?, ?, ?, ?, ?)"
 
+/*
+ * Records the explicit unknown value (kind 5, CIF_UNK_KIND) in packet (row) ?3 for every item of loop ?2 of container ?1
+ * that has no value in that packet yet
+ */
+#define FILL_PACKET_SQL "insert into item_value (container_id, name, row_num, kind) " \
+    "select li.container_id, li.name, ?3, 5 from loop_item li " \
+    "where li.container_id = ?1 and li.loop_num = ?2 and not exists (select 1 from item_value iv " \
+    "where iv.container_id = li.container_id and iv.name = li.name and iv.row_num = ?3)"
+
 #define UPDATE_VALUE_SQL "insert or replace into item_value (container_id, name, row_num, " \
     "kind, quoted, val_text, val, val_digits, su_digits, scale) values (?, ?, ?, ?, ?, ?, ?, ?, ?, ?)"
 
